@@ -154,6 +154,15 @@ pub struct FileSpec {
     pub mode: u32,
 }
 
+/// a symbolic link (relative, literal target bytes) placed by the harness
+#[derive(Clone, Debug, PartialEq, Serialize, Deserialize)]
+pub struct LinkSpec {
+    #[serde(with = "crate::hexbytes")]
+    pub path: Vec<u8>,
+    #[serde(with = "crate::hexbytes")]
+    pub target: Vec<u8>,
+}
+
 #[derive(Clone, Debug, PartialEq, Serialize, Deserialize)]
 pub struct SbomSpec {
     /// 0 cdx, 1 spdx, 2 syft
@@ -298,7 +307,14 @@ pub enum Op {
     /// set <layer>/{bin,lib,include,pkgconfig}[which] to an entry of the given kind
     Implicit { layer: usize, which: usize, kind: PathKind },
     /// the model writes a spec-shaped env directory itself (read side of C03)
-    SpecDir { layer: usize, files: Vec<FileSpec> },
+    /// `links`: entries that are symbolic links to a sibling process directory or variable file
+    /// (the lifecycle opens them by name and so follows them)
+    SpecDir {
+        layer: usize,
+        files: Vec<FileSpec>,
+        #[serde(default)]
+        links: Vec<LinkSpec>,
+    },
     /// C11: <layers>/<name> itself becomes a symlink to the canary directory
     TopSymlink { layer: usize, abs: bool },
     /// end of build, stub lifecycle restore, start of next build
